@@ -824,7 +824,7 @@ fn rns_flow(cx: &mut Cx, rng: &mut Rng, n: usize, k: usize, poly_mode: bool, ts:
             "sub" => { ra = step!(cx, opn, match form { 0 => ev.sub_new(&ra, &rb), 1 => { let mut d = ra.clone(); ev.sub_inplace(&mut d, &rb); d } _ => { let mut d = empty_rnsp(k); ev.sub(&ra, &rb, &mut d); d } });
                 va = va.iter().zip(&vb).map(|(a, b)| big_mod_sub(a, b, big_t)).collect(); }
             "multiply" => { used_ct_mul = true;
-                ra = step!(cx, opn, { let mut d = match form { 0 => ev.multiply_new(&ra, &rb), 1 => { let mut d = ra.clone(); ev.multiply_inplace(&mut d, &rb); d } _ => { let mut d = empty_rnsp(k); ev.multiply(&ra, &rb, &mut d); d } }; ev.relinearize_inplace(&mut d, &rlk); d });
+                ra = step!(cx, opn, { let mut d = match form { 0 => ev.multiply_new(&ra, &rb), 1 => { let mut d = ra.clone(); ev.multiply_inplace(&mut d, &rb); d } _ => { let mut d = empty_rnsp(k); ev.multiply(&ra, &rb, &mut d); d } }; if form == 1 { ev.relinearize_inplace(&mut d, &rlk); d } else { let mut o = empty_rnsp(k); ev.relinearize(&d, &rlk, &mut o); o } });
                 va = mul_ref(&va, &vb); }
             "square" => { used_ct_mul = true;
                 ra = step!(cx, opn, { let d = match form { 0 => ev.square_new(&ra), 1 => { let mut d = ra.clone(); ev.square_inplace(&mut d); d } _ => { let mut d = empty_rnsp(k); ev.square(&ra, &mut d); d } }; ev.relinearize_new(&d, &rlk) });
@@ -839,6 +839,13 @@ fn rns_flow(cx: &mut Cx, rng: &mut Rng, n: usize, k: usize, poly_mode: bool, ts:
             _ => { ra = step!(cx, opn, if form == 0 { ev.negate_new(&ra) } else { let mut d = ra.clone(); ev.negate_inplace(&mut d); d });
                 va = va.iter().map(|a| big_mod_sub(&BigU::zero(), a, big_t)).collect(); }
         }
+    }
+    // one level down after a linear program (no product: the noise precondition of the group is unaffected), any of the three forms
+    if !used_ct_mul && !used_pt_mul && qs.len() >= 3 && rng.chance(1, 2) {
+        let form = rng.below(3);
+        program.push(format!("mod_switch_to_next/{}", ["new", "inplace", "dest"][form as usize]));
+        cx.rep.count("rns_ops", &format!("mod_switch_to_next|{}", if poly_mode { "polynomial" } else { "slots" }));
+        ra = step!(cx, "RnspEvaluator::mod_switch_to_next".to_string(), match form { 0 => ev.mod_switch_to_next_new(&ra), 1 => { let mut d = ra.clone(); ev.mod_switch_to_next_inplace(&mut d); d } _ => { let mut d = empty_rnsp(k); ev.mod_switch_to_next(&ra, &mut d); d } });
     }
     cx.info["program"] = json!(program);
     let pd = step!(cx, "RnspDecryptor::decrypt", decryptor.decrypt_new(&ra));
